@@ -335,6 +335,15 @@ func (c *Ctx) ifaceContract(fn *types.Func) *ifaceC {
 				}
 			}
 		}
+	} else if c.pkg != nil && c.pkg.contracts != nil {
+		// universe methods (error.Error): keyed "error.Error" in the contract file of the package under verification
+		k := key
+		if sig.Recv() != nil && !strings.Contains(k, ".") {
+			k = "error." + fn.Name()
+		}
+		if fc := c.pkg.contracts.Funcs[k]; fc != nil {
+			return &ifaceC{c.pkg, fc}
+		}
 	}
 	return nil
 }
@@ -673,6 +682,31 @@ func (c *Ctx) evalBuiltin(st *State, x *ast.CallExpr, name string) Val {
 			}
 		}
 		return Scalar{c.nameIfBig(acc, name), t}
+	case "close":
+		// close(ch): channels are outside the model (no modelled state changes); closing a nil or closed channel panics,
+		// which is not considered
+		c.trusted["close(ch): channels are not modelled"] = true
+		c.evalMaybe(st, x.Args[0])
+		return Tuple{}
+	case "delete":
+		// delete(m, k): k leaves the domain of the map (cardinality adjusted); no-op on a nil map
+		if len(x.Args) == 2 {
+			if mt, ok := c.typeOf(x.Args[0]).Underlying().(*types.Map); ok {
+				m := c.asScalar(c.eval(st, x.Args[0]), c.typeOf(x.Args[0]))
+				k := c.asScalar(c.eval(st, x.Args[1]), mt.Key()).T
+				ks := c.mapKeySort(mt)
+				domFam, lenFam := c.mapPrefix(mt)+"#dom", c.mapPrefix(mt)+"#len"
+				hd := c.mapHeap(st, domFam, arraySort(ks, SBool))
+				row := Select(hd, m.T)
+				had := And(Not(Eq(m.T, Term{"0", SInt})), Select(row, k))
+				hl := c.mapHeap(st, lenFam, c.idxSort())
+				oldLen := Select(hl, m.T)
+				st.heaps[lenFam] = c.name(Store(hl, m.T, Ite(had, c.isub(oldLen, c.idx(1)), oldLen)), "M")
+				st.heaps[domFam] = c.name(Store(hd, m.T, Store(row, k, TFalse)), "M")
+				return Tuple{}
+			}
+		}
+		unsupp("delete on map at %s", c.posStr(x.Pos()))
 	case "clear":
 		v := c.eval(st, x.Args[0])
 		if s, ok := v.(Slice); ok {
@@ -686,8 +720,6 @@ func (c *Ctx) evalBuiltin(st *State, x *ast.CallExpr, name string) Val {
 			return Tuple{}
 		}
 		unsupp("clear of %T", v)
-	case "delete":
-		unsupp("delete on map at %s", c.posStr(x.Pos()))
 	case "recover":
 		// recover() observes and clears the exceptional-exit flag of the running frame
 		pf := c.panicFlag(st)
